@@ -54,7 +54,11 @@ type Topic struct {
 	Name string
 	Gen  int
 	Live bool
-	Subs []*Sub // every subscription generation ever attached to this topic generation
+	// last operation (index, subscription) that changed delivery state of one
+	// of the topic's subscriptions on purpose (ack, modack, seek, delete, update)
+	Mut   int
+	MutBy *Sub
+	Subs  []*Sub // every subscription generation ever attached to this topic generation
 }
 
 type SubCfg struct {
@@ -113,6 +117,7 @@ type Del struct {
 	LeaseWhy       string
 	DoneAt         Iv
 	countedExpired bool
+	SeenAt         int // operation index at which the model last confirmed this record
 }
 
 func (d *Del) String() string {
